@@ -38,6 +38,13 @@ def _units():
     for g in range(5):
         us.append(Unit(f"C13_kern_g{g}", "harness/C13_kern.cpp", defs=[f"-DC13_GRP={g}", "-fconstexpr-ops-limit=1000000000"],
                        flavours=_FL2, shards=_SH))
+    # element-typed algorithm / container kernels through raw pointers (run-time-only, type-keyed fast paths:
+    # memcmp/memchr/memmove/memset behind is_constant_evaluated()): float, double, long double with +-0, NaN, denormals,
+    # +-inf; signed char and short with negative values; bool, char8_t, enum class : signed char
+    for e, tag in enumerate(("f", "d", "ld", "s8", "i16", "b", "c8", "e8")):
+        fl = _FL2 if tag in ("f", "d", "s8", "i16") else {"quick": ["plain-cc"], "thorough": ["O0-cc", "plain-cc", "asan-cc"]}
+        us.append(Unit(f"C13_elem_{tag}", "harness/C13_elem.cpp", defs=[f"-DC13_ELEM={e}", "-fconstexpr-ops-limit=1000000000"],
+                       flavours=fl, shards=_SH))
     return us
 
 
@@ -51,7 +58,9 @@ P = dict(
                 "integer utilities; all unsigned-char values and EOF for <cctype>; all strings up to length 3 over {a, b, 0xE9} for the C-string "
                 "functions; value x base x buffer-size tables for to_chars, a 100-string x 5-base table for from_chars/to_integer; calendar "
                 "and tick boundary tables for chrono; scripted kernels over 40+ algorithms, static_vector, inplace_vector, array, span, "
-                "inplace_string, string_view, bitset, optional, pair/tuple, static_set). The harness then calls the same function at run "
+                "inplace_string, string_view, bitset, optional, pair/tuple, static_set; 21 element-typed kernels that run every comparing / copying / "
+                "searching / ordering algorithm and array / static_vector comparison through raw pointers to float, double, long double "
+                "(+-0, NaN, denormals, +-inf), signed char, short (negative values), bool, char8_t and an enum). The harness then calls the same function at run "
                 "time on volatile-laundered copies of the same arguments at -O0, -O2 and (cmath always, the rest in the thorough tier) "
                 "-O1+ASan/UBSan and compares bit for bit (NaN == NaN unless the function is defined on the sign bit). A SFINAE probe "
                 "records arguments inside the documented domain for which constant evaluation fails. Held means: no difference and no "
